@@ -929,8 +929,10 @@ func main() {
 			"searchdocs": chSD, "proxymerge": chPx, "mergeaggs": chAggs}
 		for _, l := range lines {
 			kind := strings.Fields(l + " .")[0]
-			if kind == "sys" || kind == "cluster" || kind == "sysbig" || kind == "sysdist" || kind == "grpc" || kind == "proxyreq" || kind == "sysagg" || kind == "sysbulks" || kind == "syshotcold" {
+			if kind == "sys" || kind == "cluster" || kind == "sysbig" || kind == "sysdist" || kind == "grpc" || kind == "proxyreq" || kind == "sysagg" || kind == "sysbulks" || kind == "syshotcold" || kind == "syslong" {
 				sysLines = append(sysLines, l)
+			} else if kind == "proxybig" {
+				runProxyBigCases(orcPx, rep, []string{l})
 			} else if ch := byKind[kind]; ch != nil {
 				ch.Add(l, runOp(l), true, "replay")
 			}
@@ -955,7 +957,10 @@ func main() {
 			exhSearchDocs(chSD, orcSD, rep)
 			genSearchDocs(g, chSD, orcSD, rep, o.Pick(600, 8000), o.Pick(4, 7))
 		})
-		stage("proxy", func() { genProxy(g, chPx, orcPx, rep, o.Pick(400, 5000)) })
+		stage("proxy", func() {
+			genProxy(g, chPx, orcPx, rep, o.Pick(400, 5000))
+			runProxyBigCases(orcPx, rep, genProxyBig(g, o))
+		})
 		stage("sys", func() {
 			lines := append(genSys(g, o), genCluster(g, o)...)
 			lines = append(lines, genDist(g, o)...)
@@ -963,6 +968,7 @@ func main() {
 			lines = append(lines, genSysAgg(g, o)...)
 			lines = append(lines, genSysBulks(g, o)...)
 			lines = append(lines, genHotCold(g, o)...)
+			lines = append(lines, fmt.Sprintf("syslong values=%d k=%d", o.Pick(6, 20), o.Pick(2, 3)))
 			// posting lists longer than one LID block (65536 entries) of a sealed fraction
 			lines = append(lines, fmt.Sprintf("sysbig n=%d k=%d", o.Pick(70000, 140000), o.Pick(3, 5)))
 			runSys(lines, chReal, orcSys, rep, o)
